@@ -4,6 +4,7 @@ import math
 
 import numpy as np
 
+from .devices import site_has
 from .props.common import V, chain_accept
 from .util import EPS
 
@@ -248,4 +249,39 @@ def check_C18_live(ex, sub=None):
                 out.append(V(P, "live-rho", "acceptance at trial %d changed the filter's penalty %r -> %r" % (t, prev_rho, frho), sub, ctx))
                 return out
         prev_rho = frho
+    return out
+
+
+# ---------------------------------------------------------------- C05
+EXEMPT_SITES = ("deriv_check", "_deriv_check", "create_scaling")
+
+
+def check_C05(ex, sub=None):
+    P = "C05"
+    out = []
+    um = ex.problem.um
+    seen = set()
+    plumbing = ("SimpleEvaluator", "ValidatingEvaluator", "Evaluator", "Iterate", "ScaledProblem", "ConstrainedProblem", "ImplicitFunc", "ScaledImplicitFunc", "StepFunc", "StateData")
+    for (comp, k, site, arg) in ex.problem.oob:
+        if any(site_has(site, s) for s in EXEMPT_SITES):
+            continue
+        # attribute to the innermost algorithmic function below the evaluator / iterate plumbing
+        where = next((q for q in site if q.split(".")[0] not in plumbing and "<lambda>" not in q and "<locals>" not in q), site[0] if site else "?")
+        key = (comp, where)
+        if key in seen:
+            continue
+        seen.add(key)
+        j = int(np.argmax((arg < um.xl) | (arg > um.xu)))
+        out.append(V(P, "evaluation-outside-bounds", "%s evaluated at x[%d]=%r outside [%r, %r] (issued from %s)" % (comp, j, float(arg[j]), float(um.xl[j]), float(um.xu[j]), where), sub, {"site": where, "comp": comp}, sig_extra=where))
+    if ex.cbs:
+        rt = ex.ref_transform()
+        for t, cb in enumerate(ex.cbs):
+            for which, it in (("iterate", cb[0]), ("next_iterate", cb[1])):
+                if (it.x < rt.lb).any() or (it.x > rt.ub).any():
+                    out.append(V(P, "callback-iterate-outside-bounds", "callback %d: %s violates the (internal) variable bounds" % (t, which), sub, {"t": t}))
+                    return out
+    if ex.result is not None:
+        x = ex.result.x
+        if (x < um.xl).any() or (x > um.xu).any():
+            out.append(V(P, "result-outside-bounds", "returned x violates the variable bounds", sub, {}))
     return out
